@@ -597,18 +597,21 @@ def run(prop, tier, seed):
 def _run(verdict, cov, tier, seed, rng, thorough, scratch):
     fixed = ("FALSE", "FALSE")
     # --- (a) model checking -------------------------------------------------------------------
-    plans = [("two_ascoded_emit", "two", AS_CODED, True, [], 8),
-             ("two_fixed", "two", fixed, False, [], 4),
-             ("three_ascoded_sim", "three", AS_CODED, True,
-              ["-simulate", "num=%d" % (40 if not thorough else 900), "-depth", "30", "-seed", str(seed + 1)], 4)]
+    # (tag, names, Dev_ constants, emit behaviours, extra TLC arguments, workers, MaxEdits)
+    def simulate(num, k):
+        return ["-simulate", "num=%d" % num, "-depth", "40", "-seed", str(seed * 10 + k)]
+    plans = [("two_ascoded_emit", "two", AS_CODED, True, [], 8, 4),
+             ("two_fixed", "two", fixed, False, [], 4, 4),
+             ("three_ascoded_sim", "three", AS_CODED, True, simulate(40 if not thorough else 2500, 1), 4, 4)]
     if thorough:
-        plans += [("three_ascoded", "three", AS_CODED, False, [], 12),
-                  ("three_fixed", "three", fixed, False, [], 12),
-                  ("two_ascoded_5", "two", AS_CODED, False, [], 8)]
+        plans += [("three_ascoded", "three", AS_CODED, False, [], 12, 4),
+                  ("three_fixed", "three", fixed, False, [], 12, 4),
+                  ("two_ascoded_5", "two", AS_CODED, False, [], 8, 5),
+                  ("two_fixed_5", "two", fixed, False, [], 8, 5),
+                  ("three_ascoded_sim6", "three", AS_CODED, True, simulate(750, 2), 4, 6)]
 
     def one(pl):
-        tag, variant, devs, emit, extra, workers = pl
-        edits = 5 if tag.endswith("_5") else 4
+        tag, variant, devs, emit, extra, workers, edits = pl
         return tlcrun.run_tlc("ReloadConfig_MC.tla", _cfg(scratch, tag, variant, devs, emit, edits), scratch,
                               workers=workers, extra_args=extra, timeout=1500, heap="6g")
     first = plans[:3]
@@ -636,7 +639,7 @@ def _run(verdict, cov, tier, seed, rng, thorough, scratch):
                                                                         "Dev_DiffIgnoresAddedKeys": pl[2][1]},
                                   "mode": "simulate" if sim_mode else "exhaustive", "complete": ok and not sim_mode,
                                   "generated": st["generated"], "distinct": st["distinct"], "depth": st["depth"],
-                                  "max_edits": 5 if tag.endswith("_5") else 4, "wall_s": round(r["wall"], 1)})
+                                  "max_edits": pl[6], "wall_s": round(r["wall"], 1)})
         if not sim_mode and not ok:
             cov["exhaustive"] = False
     cov["checker_cmd"] = results["two_ascoded_emit"]["cmd"]
@@ -647,17 +650,21 @@ def _run(verdict, cov, tier, seed, rng, thorough, scratch):
     # --- sequences for the replay -----------------------------------------------------------------
     lines2 = sorted(set(_seq_lines(results["two_ascoded_emit"]["out"])))
     lines3 = sorted(set(_seq_lines(results["three_ascoded_sim"]["out"])))
-    results["two_ascoded_emit"]["out"] = results["three_ascoded_sim"]["out"] = ""
-    if not lines2 or not lines3:
-        verdict.machinery.append("TLC emitted no sequences (two names: %d, three names: %d)" % (len(lines2), len(lines3)))
+    lines6 = sorted(set(_seq_lines(results["three_ascoded_sim6"]["out"]))) if thorough else []
+    for tag in results:
+        results[tag]["out"] = ""
+    if not lines2 or not lines3 or (thorough and not lines6):
+        verdict.machinery.append("TLC emitted no sequences (two names: %d, three names: %d, six edits: %d)" % (
+            len(lines2), len(lines3), len(lines6)))
         return
     model_d8_2 = sum(1 for l in lines2 if "StaleCfgSnapshot" in l or "DiffIgnoresAddedKeys" in l)
-    want2 = 300 if not thorough else 9000
-    want3 = 100 if not thorough else 3000
+    want2 = 300 if not thorough else 30000
+    want3 = 100 if not thorough else 8000
     pick2 = lines2 if len(lines2) <= want2 else rng.sample(lines2, want2)
-    pick3 = lines3 if len(lines3) <= want3 else rng.sample(lines3, want3)
+    pick3 = (lines3 if len(lines3) <= want3 else rng.sample(lines3, want3)) + lines6
     seqs = [_parse_seq(l) for l in pick2 + pick3]
     cov["sequences_emitted"] = {"two_names_exhaustive": len(lines2), "three_names_simulated": len(lines3),
+                                "three_names_six_edits_simulated": len(lines6),
                                 "two_names_violating_demanded_in_model": model_d8_2}
     jobs = [(i, s, (seed * 1000003 + i * 7919 + 11) & 0x7FFFFFFF) for i, s in enumerate(seqs)]
     t0 = time.time()
